@@ -23,7 +23,7 @@ def run(report):
     res = B.run_script('harness.c06_run', ['--versions', '3.6,3.8,3.10,3.12,3.14' if tier == 'quick' else
                                           '3.6,3.7,3.8,3.9,3.10,3.11,3.12,3.13,3.14',
                                           '--variants', '1' if tier == 'quick' else '3', '--pairs'])
-    names = ['bnd:C06.strict_accepts', 'bnd:C06.tree_is_derivation', 'bnd:C06.recovering_identical', 'bnd:C06.tokenize']
+    names = ['bnd:C06.strict_accepts', 'bnd:C06.tree_is_derivation', 'bnd:C06.recovering_identical', 'bnd:C06.tokenize', 'bnd:C06.lexemes']
     B.bounded_obligations(report, 'C06', names, res, functions=['parso.grammar.Grammar.parse', 'parso.parser.BaseParser.parse',
                                                                  'parso.parser.BaseParser._add_token', 'parso.parser.BaseParser._pop'])
     report.bounded['exhaustive'] = False
